@@ -201,3 +201,53 @@ def install_log_sink():
 
 def log_counts():
   return dict(_SINK.counts) if _SINK else {}
+
+
+# ----------------------------------------------------------------------------
+# allocation-failure seam on EcCurve's internal call boundaries
+# ----------------------------------------------------------------------------
+
+
+class AllocFault:
+  """Wraps EcCurve methods: the k-th call of `method` while armed raises
+  MemoryError (the table build is where a real process runs out of memory)."""
+
+  METHODS = ("PointSequence", "BatchAddX", "Multiply")
+
+  def __init__(self):
+    from paranoid_crypto.lib import ec_util
+    self.cls = ec_util.EcCurve
+    self.armed = None
+    self.count = 0
+    self.fired = 0
+    self.installed = False
+
+  def install(self):
+    if self.installed:
+      return
+    self.installed = True
+    for name in self.METHODS:
+      setattr(self.cls, name, self._wrap(name, getattr(self.cls, name)))
+
+  def _wrap(self, name, orig):
+    fault = self
+
+    def wrapper(self_curve, *args, **kw):
+      if fault.armed and fault.armed[0] == name:
+        idx = fault.count
+        fault.count += 1
+        if idx == fault.armed[1]:
+          fault.fired += 1
+          raise MemoryError("simulated allocation failure in %s" % name)
+      return orig(self_curve, *args, **kw)
+
+    wrapper.__name__ = name
+    wrapper.__doc__ = orig.__doc__
+    return wrapper
+
+  def arm(self, method, k):
+    self.armed = (method, int(k))
+    self.count = 0
+
+  def heal(self):
+    self.armed = None
